@@ -88,6 +88,8 @@ func c15Hints(s string) []reflect.Type {
 func c15Exec(op []string) string {
 	var m0, m1 runtime.MemStats
 	switch op[0] {
+	case "c15.par":
+		return c15ParExec(op)
 	case "c15.unk":
 		bs := parseBytes(op[1])
 		hints := c15Hints(op[2])
@@ -124,6 +126,9 @@ func c15Exec(op []string) string {
 }
 
 func c15Judge(op []string, out string) string {
+	if op[0] == "c15.par" {
+		return c15ParJudge(op, out)
+	}
 	if strings.HasPrefix(out, "panic") {
 		return "decoding panicked"
 	}
@@ -281,6 +286,45 @@ func c15Gen(g *G) {
 	emitNamed := func(id uint32, b []byte, tag string) {
 		g.Emit(fmt.Sprintf("c15.named %08x %s %s", id, hexD(b), gzTable(b)), tag)
 	}
+	// (0) before anything else of this run has been decoded: batches over every registered struct constructor,
+	// decoded by several goroutines at once, each batch in a new process (c15par.go)
+	var parMembers []string
+	{
+		pg := newTLGen(NewRand(g.Seed ^ 0xc15c15))
+		pg.maxDepth = 1
+		for ci := range all {
+			c := &all[ci]
+			if c.Kind != "struct" || !marshalable(c) {
+				continue
+			}
+			base, err := tl.Marshal(pg.object(c, 0).Interface())
+			if err != nil {
+				continue
+			}
+			if len(base) > 64 {
+				base = base[:64]
+			}
+			if gzTable(base) != "-" {
+				continue
+			}
+			if ci%3 == 0 {
+				parMembers = append(parMembers, fmt.Sprintf("n/%08x/%s", c.ID, hexD(base)))
+			} else {
+				parMembers = append(parMembers, fmt.Sprintf("u/%s/-", hexD(base)))
+			}
+		}
+		for i, id := range enumIDs {
+			if i%8 == 0 {
+				parMembers = append(parMembers, fmt.Sprintf("u/%s/-", hexD(le32(id))))
+			}
+		}
+		c15ParGen(g, parMembers, "fresh", g.N(1, 4), "concurrent-new-process")
+	}
+	// (0b) inputs built from the schema for every constructor with a flags word (c15schema.go)
+	c15SchemaInputs(g, func(id uint32, b []byte, tag string) {
+		emitUnk(b, "-", tag)
+		emitNamed(id, b, tag+"-named")
+	})
 	specials := []uint32{0, 0xffffffff, 0x7fffffff, 0x80000000, 1, 0x1cb5c415, 0xbc799737, 0x997275b5, 0x56730bcc, 0x3072cfa1, 0x73f1f8dc, 0xe06046b2, 0xf35c6d01, 0xfe000000, 0x000000fe}
 	perCtor := g.N(1, 6)
 	for ci := range all {
@@ -452,6 +496,11 @@ func c15Gen(g *G) {
 			binary.LittleEndian.PutUint32(b, allIDs[r.Intn(len(allIDs))])
 		}
 		emitUnk(b, []string{"-", "i64", "str"}[r.Intn(3)], "random")
+	}
+	// concurrent decoding once more, in this process (every type has been met by now: what is left is state
+	// shared between overlapping calls, not first-use initialisation)
+	if len(parMembers) > 96 {
+		c15ParGen(g, parMembers[:96], "here", 1, "concurrent-this-process")
 	}
 }
 
